@@ -17,7 +17,8 @@
   the LAST entry of a type is served), then thread list, module list, memory list (type 5) or
   memory-64 list (type 9), memory-info list, thread names, unloaded modules, exception?, system info?.
 
-  Streams NOT covered here (engine-side oracle only): misc info, Linux maps, handles, Crashpad.
+  then the optional streams: exception?, system info?, misc info?, handle data?, Linux maps?,
+  Crashpad info? (each present iff the model has it).
   CPU contexts are carried as raw bytes (their interpretation is C18's tables + the engine's oracle).
 
   System info is not decoded by `MdModel.Dump`; its reader lives here (`readSystemInfo`, with the
@@ -27,6 +28,7 @@
 -/
 import MdModel.Prelude
 import MdModel.Dump
+import MdModel.Dump2
 import MdModel.RangeMap
 import MdModel.Gen.LayoutsC02
 namespace MdModel.Encode
@@ -123,6 +125,65 @@ structure MSysInfo where
   csd : List Nat
   deriving DecidableEq, Repr
 
+/-- `MINIDUMP_MISC_INFO*`: which of the five revisions is written, its scalar values in layout
+    order (flag-guarded fields may hold anything, whatever `flags1` says), and bytes that follow
+    the struct inside the stream (a reader picks the revision by the stream's length alone) -/
+structure MMiscInfo where
+  ver : Nat
+  vals : List Nat
+  tail : List UInt8
+  deriving DecidableEq, Repr
+
+/-- one element of a handle's object-information chain: `info_type`, `size_of_info` -/
+structure MObjInfo where
+  ty : Nat
+  size : Nat
+  deriving DecidableEq, Repr
+
+structure MHandle where
+  handle : Nat
+  typeName : Option (List Nat)
+  objectName : Option (List Nat)
+  attributes : Nat
+  grantedAccess : Nat
+  handleCount : Nat
+  pointerCount : Nat
+  /-- only written (and read) with `MINIDUMP_HANDLE_DESCRIPTOR_2` -/
+  infos : List MObjInfo
+  deriving DecidableEq, Repr
+
+/-- the handle-data stream: descriptors of the first (32 bytes) or the second (40 bytes) kind -/
+structure MHandleData where
+  v2 : Bool
+  handles : List MHandle
+  deriving DecidableEq, Repr
+
+/-- a Crashpad annotation object: its name and, by type, nothing (`TYPE_INVALID`), a string
+    (`TYPE_STRING`), or the raw value word (any other type: user-defined from 0x8000 on) -/
+inductive MAnnotation where
+  | invalid (name : List UInt8)
+  | string (name value : List UInt8)
+  | other (name : List UInt8) (ty value : Nat)
+  deriving DecidableEq, Repr
+
+/-- `MINIDUMP_MODULE_CRASHPAD_INFO` of one module, strings as UTF-8 bytes, items in file order -/
+structure MModuleCrashpad where
+  index : Nat
+  version : Nat
+  listAnnotations : List (List UInt8)
+  simpleAnnotations : List (List UInt8 × List UInt8)
+  annotationObjects : List MAnnotation
+  deriving DecidableEq, Repr
+
+structure MCrashpad where
+  version : Nat
+  /-- `report_id`, `client_id`: the 11 scalars of a `GUID` each -/
+  reportId : List Nat
+  clientId : List Nat
+  simpleAnnotations : List (List UInt8 × List UInt8)
+  modules : List MModuleCrashpad
+  deriving DecidableEq, Repr
+
 structure DumpModel where
   flags : Nat
   /-- 4 bytes of padding between the count and the entries of the four `read_stream_list` streams -/
@@ -137,6 +198,11 @@ structure DumpModel where
   sysInfo : Option MSysInfo
   /-- raw streams (type, bytes) listed FIRST in the directory -/
   extra : List (Nat × List UInt8)
+  miscInfo : Option MMiscInfo := none
+  handles : Option MHandleData := none
+  /-- the entries of `/proc/<pid>/maps` (the `LinuxMaps` text stream) -/
+  linuxMaps : Option (List MapEntry) := none
+  crashpad : Option MCrashpad := none
   deriving DecidableEq, Repr
 
 /-! ## integers and records -/
@@ -321,6 +387,245 @@ def sysInfoRec (off : Nat) (s : MSysInfo) : List Nat :=
 def encSysInfo (e : Endian) (off : Nat) (s : MSysInfo) : List UInt8 :=
   encFields e SYSTEM_INFO_LAYOUT (sysInfoRec off s)
 
+/-! ### misc info (no out-of-band data) -/
+
+def ST_MISC_INFO : Nat := ST_MiscInfoStream
+
+def encMiscInfo (e : Endian) (x : MMiscInfo) : List UInt8 :=
+  encFields e (miscLayout x.ver) x.vals ++ x.tail
+
+def miscInfoSize (x : MMiscInfo) : Nat := Layout.size (miscLayout x.ver) + x.tail.length
+
+/-! ### handle data: out-of-band = per handle: type name?, object name?, the object-info chain -/
+
+def ST_HANDLE_DATA_STREAM : Nat := ST_HandleDataStream
+
+def optStringSize : Option (List Nat) → Nat
+  | none => 0
+  | some n => stringSize n
+
+def encOptString (e : Endian) : Option (List Nat) → List UInt8
+  | none => []
+  | some n => encString e n
+
+/-- the chain of `MINIDUMP_HANDLE_OBJECT_INFORMATION` records starting at file offset `base`; each
+    cites the next one, the last cites 0 -/
+def encInfos (e : Endian) : Nat → List MObjInfo → List UInt8
+  | _, [] => []
+  | _, [i] => encFields e MINIDUMP_HANDLE_OBJECT_INFORMATION [0, i.ty, i.size]
+  | base, i :: j :: rest =>
+    encFields e MINIDUMP_HANDLE_OBJECT_INFORMATION [base + 12, i.ty, i.size] ++ encInfos e (base + 12) (j :: rest)
+
+def handleInfos (v2 : Bool) (h : MHandle) : List MObjInfo := if v2 then h.infos else []
+
+def oobHandleSize (v2 : Bool) (h : MHandle) : Nat :=
+  optStringSize h.typeName + optStringSize h.objectName + 12 * (handleInfos v2 h).length
+
+def oobHandle (e : Endian) (v2 : Bool) (off : Nat) (h : MHandle) : List UInt8 :=
+  encOptString e h.typeName ++ encOptString e h.objectName ++
+    encInfos e (off + optStringSize h.typeName + optStringSize h.objectName) (handleInfos v2 h)
+
+def oobHandles (e : Endian) (v2 : Bool) : Nat → List MHandle → List UInt8
+  | _, [] => []
+  | off, h :: hs => oobHandle e v2 off h ++ oobHandles e v2 (off + oobHandleSize v2 h) hs
+
+def oobHandlesSize (v2 : Bool) : List MHandle → Nat
+  | [] => 0
+  | h :: hs => oobHandleSize v2 h + oobHandlesSize v2 hs
+
+/-- the RVA an optional item is cited with: 0 when absent -/
+def optOff {α : Type} (o : Option α) (off : Nat) : Nat :=
+  match o with
+  | none => 0
+  | some _ => off
+
+/-- the descriptor of a handle whose out-of-band data start at `off`; an absent name / an empty
+    chain is cited as RVA 0 -/
+def handleRec (v2 : Bool) (off : Nat) (h : MHandle) : List Nat :=
+  [h.handle, optOff h.typeName off, optOff h.objectName (off + optStringSize h.typeName),
+   h.attributes, h.grantedAccess, h.handleCount, h.pointerCount] ++
+  (if v2 then
+    [(if (handleInfos v2 h).isEmpty then 0 else off + optStringSize h.typeName + optStringSize h.objectName), 0]
+   else [])
+
+def handleRecs (v2 : Bool) : Nat → List MHandle → List (List Nat)
+  | _, [] => []
+  | off, h :: hs => handleRec v2 off h :: handleRecs v2 (off + oobHandleSize v2 h) hs
+
+def handleLayout (v2 : Bool) : Layout := if v2 then MINIDUMP_HANDLE_DESCRIPTOR_2 else MINIDUMP_HANDLE_DESCRIPTOR
+def handleDescSize (v2 : Bool) : Nat := if v2 then 40 else 32
+
+/-- `MINIDUMP_HANDLE_DATA_STREAM` header (16 bytes) + the descriptors -/
+def encHandleData (e : Endian) (off : Nat) (x : MHandleData) : List UInt8 :=
+  encFields e MINIDUMP_HANDLE_DATA_STREAM [16, handleDescSize x.v2, x.handles.length, 0] ++
+    encRecords e (handleLayout x.v2) (handleRecs x.v2 off x.handles)
+
+def handleDataSize (x : MHandleData) : Nat := 16 + handleDescSize x.v2 * x.handles.length
+
+/-! ### Linux maps: a text stream, one line per entry (no out-of-band data)
+
+    `<lo:016x>-<hi:016x> <perms> <offset:016x> <major:08x>:<minor:08x> <inode:020> <path>\n` — fixed
+    widths, lower-case hex (the kernel pads differently; the parser does not care). -/
+
+def ST_LINUX_MAPS : Nat := ST_LinuxMaps
+
+def digitByte (d : Nat) : UInt8 := if d < 10 then UInt8.ofNat (48 + d) else UInt8.ofNat (87 + d)
+
+/-- exactly `w` digits of `n` in base `b` (≤ 16), most significant first -/
+def fixedDigits (b : Nat) : Nat → Nat → List UInt8
+  | 0, _ => []
+  | w + 1, n => fixedDigits b w (n / b) ++ [digitByte (n % b)]
+
+/-- `rwx` or `-` each, then `s` and/or `p` (a `-` when neither) -/
+def encPerms (p : Nat) : List UInt8 :=
+  [if p % 2 = 1 then 114 else 45, if p / 2 % 2 = 1 then 119 else 45, if p / 4 % 2 = 1 then 120 else 45] ++
+  (if p / 8 % 2 = 1 then [115] else []) ++ (if p / 16 % 2 = 1 then [112] else []) ++
+  (if p / 8 % 4 = 0 then [45] else [])
+
+def encMapPath : MapPath → List UInt8
+  | .path p => p
+  | .heap => S_HEAP
+  | .stack => S_STACK
+  | .tstack tid => S_STACK_COLON ++ fixedDigits 10 10 tid ++ [93]
+  | .vdso => S_VDSO
+  | .vvar => S_VVAR
+  | .vsyscall => S_VSYSCALL
+  | .rollup => S_ROLLUP
+  | .anonymous => []
+  | .vsys key => S_SYSV ++ fixedDigits 16 8 key
+  | .other s => [91] ++ s ++ [93]
+
+/-- one line without its terminator -/
+def mapLineBody (x : MapEntry) : List UInt8 :=
+  fixedDigits 16 16 x.lo ++ [45] ++ fixedDigits 16 16 x.hi ++ [32] ++ encPerms x.perms ++ [32] ++
+  fixedDigits 16 16 x.offset ++ [32] ++ fixedDigits 16 8 x.devMajor ++ [58] ++ fixedDigits 16 8 x.devMinor ++ [32] ++
+  fixedDigits 10 20 x.inode ++ [32] ++ encMapPath x.path
+
+def encLinuxMaps : List MapEntry → List UInt8
+  | [] => []
+  | x :: xs => mapLineBody x ++ [10] ++ encLinuxMaps xs
+
+/-! ### Crashpad info
+
+    stream = `MINIDUMP_CRASHPAD_INFO` (52 bytes); out-of-band, in this order:
+      dictionary block   = count | (key RVA, value RVA)* | (key, value as MINIDUMP_UTF8_STRING)*
+      module-list block  = count | (index, location)* | per module:
+        MINIDUMP_MODULE_CRASHPAD_INFO (28 bytes) | string-list block | dictionary block | annotation block
+      string-list block  = count | RVA* | strings
+      annotation block   = count | (name RVA, type, reserved, value)* | per object: name, [string value]
+    A location descriptor covers count + records only; the strings are cited by RVA. -/
+
+def ST_CRASHPAD : Nat := ST_CrashpadInfoStream
+
+/-- `MINIDUMP_UTF8_STRING`: u32 length, the bytes, a NUL -/
+def encUtf8 (e : Endian) (s : List UInt8) : List UInt8 := encNat e 4 s.length ++ s ++ [0]
+def utf8Size (s : List UInt8) : Nat := 5 + s.length
+/-- the same without the terminator (the value of a string annotation object) -/
+def encUtf8U (e : Endian) (s : List UInt8) : List UInt8 := encNat e 4 s.length ++ s
+def utf8USize (s : List UInt8) : Nat := 4 + s.length
+
+def RVA_LAYOUT : Layout := [("rva", 4)]
+
+/-! string list -/
+def listStrings (e : Endian) : List (List UInt8) → List UInt8
+  | [] => []
+  | s :: ss => encUtf8 e s ++ listStrings e ss
+def listStringsSize : List (List UInt8) → Nat
+  | [] => 0
+  | s :: ss => utf8Size s + listStringsSize ss
+def listRecs : Nat → List (List UInt8) → List (List Nat)
+  | _, [] => []
+  | soff, s :: ss => [soff] :: listRecs (soff + utf8Size s) ss
+def listBlock (e : Endian) (off : Nat) (ss : List (List UInt8)) : List UInt8 :=
+  encNat e 4 ss.length ++ encRecords e RVA_LAYOUT (listRecs (off + 4 + 4 * ss.length) ss) ++ listStrings e ss
+def listBlockSize (ss : List (List UInt8)) : Nat := 4 + 4 * ss.length + listStringsSize ss
+
+/-! simple string dictionary -/
+def dictStrings (e : Endian) : List (List UInt8 × List UInt8) → List UInt8
+  | [] => []
+  | (k, v) :: r => encUtf8 e k ++ encUtf8 e v ++ dictStrings e r
+def dictStringsSize : List (List UInt8 × List UInt8) → Nat
+  | [] => 0
+  | (k, v) :: r => utf8Size k + utf8Size v + dictStringsSize r
+def dictRecs : Nat → List (List UInt8 × List UInt8) → List (List Nat)
+  | _, [] => []
+  | soff, (k, v) :: r => [soff, soff + utf8Size k] :: dictRecs (soff + utf8Size k + utf8Size v) r
+def dictBlock (e : Endian) (off : Nat) (d : List (List UInt8 × List UInt8)) : List UInt8 :=
+  encNat e 4 d.length ++ encRecords e MINIDUMP_SIMPLE_STRING_DICTIONARY_ENTRY (dictRecs (off + 4 + 8 * d.length) d) ++
+    dictStrings e d
+def dictBlockSize (d : List (List UInt8 × List UInt8)) : Nat := 4 + 8 * d.length + dictStringsSize d
+
+/-! annotation objects -/
+def MAnnotation.name : MAnnotation → List UInt8
+  | .invalid n => n
+  | .string n _ => n
+  | .other n _ _ => n
+def annStringsOf (e : Endian) (a : MAnnotation) : List UInt8 :=
+  encUtf8 e a.name ++ (match a with | .string _ v => encUtf8U e v | _ => [])
+def annStringsSizeOf (a : MAnnotation) : Nat :=
+  utf8Size a.name + (match a with | .string _ v => utf8USize v | _ => 0)
+def annStrings (e : Endian) : List MAnnotation → List UInt8
+  | [] => []
+  | a :: r => annStringsOf e a ++ annStrings e r
+def annStringsSize : List MAnnotation → Nat
+  | [] => 0
+  | a :: r => annStringsSizeOf a + annStringsSize r
+def annRec (soff : Nat) : MAnnotation → List Nat
+  | .invalid _ => [soff, ANNOTATION_TYPE_INVALID, 0, 0]
+  | .string n _ => [soff, ANNOTATION_TYPE_STRING, 0, soff + utf8Size n]
+  | .other _ ty v => [soff, ty, 0, v]
+def annRecs : Nat → List MAnnotation → List (List Nat)
+  | _, [] => []
+  | soff, a :: r => annRec soff a :: annRecs (soff + annStringsSizeOf a) r
+def annBlock (e : Endian) (off : Nat) (as : List MAnnotation) : List UInt8 :=
+  encNat e 4 as.length ++ encRecords e MINIDUMP_ANNOTATION (annRecs (off + 4 + 12 * as.length) as) ++ annStrings e as
+def annBlockSize (as : List MAnnotation) : Nat := 4 + 12 * as.length + annStringsSize as
+
+/-! one module, the module list, the whole out-of-band group -/
+def modBlockSize (x : MModuleCrashpad) : Nat :=
+  28 + listBlockSize x.listAnnotations + dictBlockSize x.simpleAnnotations + annBlockSize x.annotationObjects
+
+def modRec (off : Nat) (x : MModuleCrashpad) : List Nat :=
+  let la := off + 28
+  let sa := la + listBlockSize x.listAnnotations
+  let ao := sa + dictBlockSize x.simpleAnnotations
+  [x.version, 4 + 4 * x.listAnnotations.length, la, 4 + 8 * x.simpleAnnotations.length, sa,
+   4 + 12 * x.annotationObjects.length, ao]
+
+def modBlock (e : Endian) (off : Nat) (x : MModuleCrashpad) : List UInt8 :=
+  let la := off + 28
+  let sa := la + listBlockSize x.listAnnotations
+  let ao := sa + dictBlockSize x.simpleAnnotations
+  encFields e MINIDUMP_MODULE_CRASHPAD_INFO (modRec off x) ++ listBlock e la x.listAnnotations ++
+    dictBlock e sa x.simpleAnnotations ++ annBlock e ao x.annotationObjects
+
+def modBlocks (e : Endian) : Nat → List MModuleCrashpad → List UInt8
+  | _, [] => []
+  | off, x :: xs => modBlock e off x ++ modBlocks e (off + modBlockSize x) xs
+def modBlocksSize : List MModuleCrashpad → Nat
+  | [] => 0
+  | x :: xs => modBlockSize x + modBlocksSize xs
+def linkRecs : Nat → List MModuleCrashpad → List (List Nat)
+  | _, [] => []
+  | off, x :: xs => [x.index, 28, off] :: linkRecs (off + modBlockSize x) xs
+def modListBlock (e : Endian) (off : Nat) (xs : List MModuleCrashpad) : List UInt8 :=
+  encNat e 4 xs.length ++ encRecords e MINIDUMP_MODULE_CRASHPAD_INFO_LINK (linkRecs (off + 4 + 12 * xs.length) xs) ++
+    modBlocks e (off + 4 + 12 * xs.length) xs
+def modListBlockSize (xs : List MModuleCrashpad) : Nat := 4 + 12 * xs.length + modBlocksSize xs
+
+def crashpadOobOf (e : Endian) (off : Nat) (x : MCrashpad) : List UInt8 :=
+  dictBlock e off x.simpleAnnotations ++ modListBlock e (off + dictBlockSize x.simpleAnnotations) x.modules
+def crashpadOobSizeOf (x : MCrashpad) : Nat := dictBlockSize x.simpleAnnotations + modListBlockSize x.modules
+
+def guidVals (g : List Nat) : List Nat := (g ++ List.replicate (11 - g.length) 0).take 11
+
+def crashpadRec (off : Nat) (x : MCrashpad) : List Nat :=
+  [x.version] ++ guidVals x.reportId ++ guidVals x.clientId ++
+  [4 + 8 * x.simpleAnnotations.length, off, 4 + 12 * x.modules.length, off + dictBlockSize x.simpleAnnotations]
+
+def encCrashpad (e : Endian) (off : Nat) (x : MCrashpad) : List UInt8 :=
+  encFields e MINIDUMP_CRASHPAD_INFO (crashpadRec off x)
+
 /-! ## the whole file -/
 
 /-- sizes of the out-of-band groups -/
@@ -337,6 +642,12 @@ def oobNamesSize : List (List Nat) → Nat
   | [] => 0
   | n :: ns => stringSize n + oobNamesSize ns
 
+/-- an optional stream: no directory entry when the model has none -/
+def optList {α β : Type} (o : Option α) (g : α → β) : List β :=
+  match o with
+  | none => []
+  | some a => [g a]
+
 /-- sizes of the streams the encoder emits after the extras, by formula (they do not depend on
     where the out-of-band data ends up) -/
 def coreStreamSizes (m : DumpModel) (f : MemForm) : List (Nat × Nat) :=
@@ -348,8 +659,12 @@ def coreStreamSizes (m : DumpModel) (f : MemForm) : List (Nat × Nat) :=
    (ST_MEMORY_INFO_LIST, 12 + 48 * m.memInfo.length),
    (ST_THREAD_NAMES, listHeaderSize m.pad + 12 * m.threadNames.length),
    (ST_UNLOADED_MODULE_LIST, 12 + 24 * m.unloaded.length)] ++
-  (match m.exception with | none => [] | some _ => [(ST_EXCEPTION, 168)]) ++
-  (match m.sysInfo with | none => [] | some _ => [(ST_SYSTEM_INFO, 56)])
+  optList m.exception (fun _ => (ST_EXCEPTION, 168)) ++
+  optList m.sysInfo (fun _ => (ST_SYSTEM_INFO, 56)) ++
+  optList m.miscInfo (fun x => (ST_MISC_INFO, miscInfoSize x)) ++
+  optList m.handles (fun x => (ST_HANDLE_DATA_STREAM, handleDataSize x)) ++
+  optList m.linuxMaps (fun x => (ST_LINUX_MAPS, (encLinuxMaps x).length)) ++
+  optList m.crashpad (fun _ => (ST_CRASHPAD, 52))
 
 def streamSizes (m : DumpModel) (f : MemForm) : List (Nat × Nat) :=
   m.extra.map (fun x => (x.1, x.2.length)) ++ coreStreamSizes m f
@@ -365,6 +680,16 @@ def excCtx (m : DumpModel) : List UInt8 := match m.exception with | none => [] |
 def csdString (e : Endian) (m : DumpModel) : List UInt8 :=
   match m.sysInfo with | none => [] | some s => encString e s.csd
 def csdSize (m : DumpModel) : Nat := match m.sysInfo with | none => 0 | some s => stringSize s.csd
+/-- the handles' out-of-band data, placed at file offset `off` -/
+def handlesOob (e : Endian) (off : Nat) (m : DumpModel) : List UInt8 :=
+  match m.handles with | none => [] | some x => oobHandles e x.v2 off x.handles
+def handlesOobSize (m : DumpModel) : Nat :=
+  match m.handles with | none => 0 | some x => oobHandlesSize x.v2 x.handles
+/-- the Crashpad blocks, placed at file offset `off` -/
+def crashpadOob (e : Endian) (off : Nat) (m : DumpModel) : List UInt8 :=
+  match m.crashpad with | none => [] | some x => crashpadOobOf e off x
+def crashpadOobSize (m : DumpModel) : Nat :=
+  match m.crashpad with | none => 0 | some x => crashpadOobSizeOf x
 
 /-- offsets of the out-of-band groups -/
 structure OobOffsets where
@@ -375,6 +700,8 @@ structure OobOffsets where
   unloaded : Nat
   exc : Nat
   csd : Nat
+  handles : Nat
+  crashpad : Nat
   stop : Nat
   deriving Repr
 
@@ -387,7 +714,9 @@ def oobOffsets (m : DumpModel) (f : MemForm) : OobOffsets :=
   let o5 := o4 + oobNamesSize (m.unloaded.map (·.name))
   let o6 := o5 + (excCtx m).length
   let o7 := o6 + csdSize m
-  ⟨o0, o1, o2, o3, o4, o5, o6, o7⟩
+  let o8 := o7 + handlesOobSize m
+  let o9 := o8 + crashpadOobSize m
+  ⟨o0, o1, o2, o3, o4, o5, o6, o7, o8, o9⟩
 
 /-- the streams after the extras: (type, bytes) -/
 def coreStreams (m : DumpModel) (e : Endian) (f : MemForm) : List (Nat × List UInt8) :=
@@ -400,16 +729,22 @@ def coreStreams (m : DumpModel) (e : Endian) (f : MemForm) : List (Nat × List U
    (ST_MEMORY_INFO_LIST, encMemInfoList e m.memInfo),
    (ST_THREAD_NAMES, encThreadNames e m.pad o.names m.threadNames),
    (ST_UNLOADED_MODULE_LIST, encUnloadedList e o.unloaded m.unloaded)] ++
-  (match m.exception with | none => [] | some x => [(ST_EXCEPTION, encException e o.exc x)]) ++
-  (match m.sysInfo with | none => [] | some s => [(ST_SYSTEM_INFO, encSysInfo e o.csd s)])
+  optList m.exception (fun x => (ST_EXCEPTION, encException e o.exc x)) ++
+  optList m.sysInfo (fun s => (ST_SYSTEM_INFO, encSysInfo e o.csd s)) ++
+  optList m.miscInfo (fun x => (ST_MISC_INFO, encMiscInfo e x)) ++
+  optList m.handles (fun x => (ST_HANDLE_DATA_STREAM, encHandleData e o.handles x)) ++
+  optList m.linuxMaps (fun x => (ST_LINUX_MAPS, encLinuxMaps x)) ++
+  optList m.crashpad (fun x => (ST_CRASHPAD, encCrashpad e o.crashpad x))
 
 def allStreams (m : DumpModel) (e : Endian) (f : MemForm) : List (Nat × List UInt8) :=
   m.extra ++ coreStreams m e f
 
-def oobAll (m : DumpModel) (e : Endian) : List UInt8 :=
+/-- the out-of-band area, given the file offsets of the handles' and the Crashpad group (their
+    contents cite absolute offsets) -/
+def oobAllAt (m : DumpModel) (e : Endian) (hoff coff : Nat) : List UInt8 :=
   oobThreads m.threads ++ oobModules e m.modules ++ oobMemory m.memory ++
   oobNames e (m.threadNames.map (·.2)) ++ oobNames e (m.unloaded.map (·.name)) ++
-  excCtx m ++ csdString e m
+  excCtx m ++ csdString e m ++ handlesOob e hoff m ++ crashpadOob e coff m
 
 /-- `time_date_stamp` written into every header (the value minidump-synth uses) -/
 def HEADER_TIME : Nat := 1262805309
@@ -432,8 +767,11 @@ def streamsBytes : List (Nat × List UInt8) → List UInt8
 def encodeStreams (e : Endian) (flags : Nat) (ss : List (Nat × List UInt8)) : List UInt8 :=
   encHeader e ss.length flags ++ encDirectory e (32 + 12 * ss.length) ss ++ streamsBytes ss
 
+def oobAll (m : DumpModel) (e : Endian) (f : MemForm) : List UInt8 :=
+  oobAllAt m e (oobOffsets m f).handles (oobOffsets m f).crashpad
+
 def encodeList (m : DumpModel) (e : Endian) (f : MemForm) : List UInt8 :=
-  encodeStreams e m.flags (allStreams m e f) ++ oobAll m e
+  encodeStreams e m.flags (allStreams m e f) ++ oobAll m e f
 
 /-- **the serializer** -/
 def encode (m : DumpModel) (e : Endian) (f : MemForm) : Bytes := (encodeList m e f).toArray
@@ -462,6 +800,44 @@ structure RException where
   numberParameters : Nat
   info : List Nat
   ctx : Option (List UInt8)
+  deriving DecidableEq, Repr
+
+inductive RAnnValue where
+  | invalid
+  | string (s : List UInt8)
+  | userDefined (ty value : Nat)
+  | unsupported (ty value : Nat)
+  deriving DecidableEq, Repr
+
+structure RModuleCrashpad where
+  index : Nat
+  version : Nat
+  listAnnotations : List (List UInt8)
+  /-- a `BTreeMap`: sorted by key (byte order), the last duplicate wins -/
+  simpleAnnotations : List (List UInt8 × List UInt8)
+  annotationObjects : List (List UInt8 × RAnnValue)
+  deriving DecidableEq, Repr
+
+structure RCrashpad where
+  version : Nat
+  /-- `report_id` then `client_id`: 22 scalars -/
+  ids : List Nat
+  simpleAnnotations : List (List UInt8 × List UInt8)
+  modules : List RModuleCrashpad
+  deriving DecidableEq, Repr
+
+structure RHandle where
+  /-- which descriptor was read (`object_info_rva()` is `Some` for the second kind only) -/
+  v2 : Bool
+  handle : Nat
+  typeName : Option (List Nat)
+  objectName : Option (List Nat)
+  attributes : Nat
+  grantedAccess : Nat
+  handleCount : Nat
+  pointerCount : Nat
+  /-- `object_infos`: (info_type, size_of_info) in chain order -/
+  infos : List (Nat × Nat)
   deriving DecidableEq, Repr
 
 structure RSysInfo where
@@ -495,6 +871,10 @@ structure Reported where
   unloaded : Except Err (List MUnloaded)
   exception : Except Err RException
   sysInfo : Except Err RSysInfo
+  miscInfo : Except Err MiscInfo
+  handles : Except Err (List RHandle)
+  linuxMaps : Except Err (List MapEntry)
+  crashpad : Except Err RCrashpad
 
 def sliceList (b : Bytes) (s e : Nat) : List UInt8 := (b.extract s e).toList
 
@@ -525,6 +905,28 @@ def rexceptionOf (b : Bytes) (x : Exception) : RException :=
   { threadId := x.threadId, code := x.code, flags := x.flags, record := x.record, address := x.address,
     numberParameters := x.numberParameters, info := x.info,
     ctx := x.context.map fun (s, e) => sliceList b s e }
+
+def rhandleOf (h : Handle) : RHandle :=
+  { v2 := h.vals.length == 9, handle := fld h.vals 0, typeName := h.typeName, objectName := h.objectName,
+    attributes := fld h.vals 3, grantedAccess := fld h.vals 4, handleCount := fld h.vals 5, pointerCount := fld h.vals 6,
+    infos := h.infos.map fun o => (o.ty, o.size) }
+
+def rdictOf (d : List (Bytes × Bytes)) : List (List UInt8 × List UInt8) := d.map fun kv => (kv.1.toList, kv.2.toList)
+
+def rannValueOf : AnnotationValue → RAnnValue
+  | .invalid => .invalid
+  | .string s => .string s.toList
+  | .userDefined ty v => .userDefined ty v
+  | .unsupported ty v => .unsupported ty v
+
+def rmoduleCrashpadOf (x : ModuleCrashpadInfo) : RModuleCrashpad :=
+  { index := x.moduleIndex, version := x.version, listAnnotations := x.listAnnotations.map (·.toList),
+    simpleAnnotations := rdictOf x.simpleAnnotations,
+    annotationObjects := x.annotationObjects.map fun kv => (kv.1.toList, rannValueOf kv.2) }
+
+def rcrashpadOf (x : List Nat × CrashpadInfo) : RCrashpad :=
+  { version := x.2.version, ids := x.1, simpleAnnotations := rdictOf x.2.simpleAnnotations,
+    modules := x.2.modules.map rmoduleCrashpadOf }
 
 /-- `MinidumpSystemInfo::read` [3175] (the raw record and the CSD string; the `cpu_info` text is
     not modelled) -/
@@ -570,6 +972,10 @@ def decode (b : Bytes) : Res Reported :=
     Res.bind (streamRes d b ST_UNLOADED_MODULE_LIST (fun s => readUnloadedModuleList ms s b e)) fun unloaded =>
     Res.bind (streamRes d b ST_EXCEPTION (fun s => readException s b e)) fun exc =>
     Res.bind (streamRes d b ST_SYSTEM_INFO (fun s => readSystemInfo s b e)) fun sys =>
+    Res.bind (streamRes d b ST_MISC_INFO (fun s => readMiscInfo s e)) fun misc =>
+    Res.bind (streamRes d b ST_HANDLE_DATA_STREAM (fun s => readHandleData ms s b e)) fun handles =>
+    Res.bind (streamRes d b ST_LINUX_MAPS (fun s => readLinuxMaps s)) fun maps =>
+    Res.bind (streamRes d b ST_CRASHPAD (fun s => readCrashpadInfoRaw ms s b e)) fun crashpad =>
     .ok { endian := e, flags := d.header.flags,
           threads := threads.map (·.map (rthreadOf b)),
           modules := modules.map (·.map (mmoduleOf e)),
@@ -578,7 +984,11 @@ def decode (b : Bytes) : Res Reported :=
           threadNames := names,
           unloaded := unloaded.map (·.map munloadedOf),
           exception := exc.map (rexceptionOf b),
-          sysInfo := sys }
+          sysInfo := sys,
+          miscInfo := misc,
+          handles := handles.map (·.map rhandleOf),
+          linuxMaps := maps,
+          crashpad := crashpad.map rcrashpadOf }
 
 /-! ## the model as the reader reports it -/
 
@@ -591,6 +1001,41 @@ def reportThread (t : MThread) : RThread :=
 /-- `BTreeMap` insertion of the names in file order -/
 def namesMap (ns : List (Nat × List Nat)) : List (Nat × List Nat) :=
   ns.foldl (fun acc p => mapInsert p.1 p.2 acc) []
+
+def reportException (x : MException) : RException :=
+  { threadId := x.threadId, code := x.code, flags := x.flags, record := x.record, address := x.address,
+    numberParameters := x.numberParameters, info := x.info, ctx := some x.ctx }
+
+def reportSysInfo (s : MSysInfo) : RSysInfo :=
+  { arch := s.arch, level := s.level, revision := s.revision, nproc := s.nproc, productType := s.productType,
+    major := s.major, minor := s.minor, build := s.build, platform := s.platform, suite := s.suite, cpu := s.cpu,
+    csd := some s.csd }
+
+def reportHandle (v2 : Bool) (h : MHandle) : RHandle :=
+  { v2 := v2, handle := h.handle, typeName := h.typeName, objectName := h.objectName, attributes := h.attributes,
+    grantedAccess := h.grantedAccess, handleCount := h.handleCount, pointerCount := h.pointerCount,
+    infos := (handleInfos v2 h).map fun i => (i.ty, i.size) }
+
+/-- a dictionary as the reader's `BTreeMap` holds it: inserted in file order -/
+def dictOf (d : List (List UInt8 × List UInt8)) : List (Bytes × Bytes) :=
+  d.foldl (fun acc kv => dictInsert kv.1.toArray kv.2.toArray acc) []
+
+def annValueOf : MAnnotation → AnnotationValue
+  | .invalid _ => .invalid
+  | .string _ v => .string v.toArray
+  | .other _ ty v => if ty ≥ ANNOTATION_TYPE_USER_DEFINED then .userDefined ty v else .unsupported ty v
+
+def annDictOf (as : List MAnnotation) : List (Bytes × AnnotationValue) :=
+  as.foldl (fun acc a => dictInsert a.name.toArray (annValueOf a) acc) []
+
+def reportModuleCrashpad (x : MModuleCrashpad) : RModuleCrashpad :=
+  { index := x.index, version := x.version, listAnnotations := x.listAnnotations,
+    simpleAnnotations := rdictOf (dictOf x.simpleAnnotations),
+    annotationObjects := (annDictOf x.annotationObjects).map fun kv => (kv.1.toList, rannValueOf kv.2) }
+
+def reportCrashpad (x : MCrashpad) : RCrashpad :=
+  { version := x.version, ids := guidVals x.reportId ++ guidVals x.clientId,
+    simpleAnnotations := rdictOf (dictOf x.simpleAnnotations), modules := x.modules.map reportModuleCrashpad }
 
 /-- What reading `encode m e f` yields: items in file order; a thread with an empty stack has no
     stack memory; modules with a "bad image size" (0, or reaching past 2^64-1) are skipped by the
@@ -609,14 +1054,22 @@ def report (m : DumpModel) (e : Endian) (f : MemForm) : Reported :=
       else .ok m.unloaded,
     exception := match m.exception with
       | none => .error .StreamNotFound
-      | some x => .ok { threadId := x.threadId, code := x.code, flags := x.flags, record := x.record,
-                         address := x.address, numberParameters := x.numberParameters, info := x.info,
-                         ctx := some x.ctx },
+      | some x => .ok (reportException x),
     sysInfo := match m.sysInfo with
       | none => .error .StreamNotFound
-      | some s => .ok { arch := s.arch, level := s.level, revision := s.revision, nproc := s.nproc,
-                         productType := s.productType, major := s.major, minor := s.minor, build := s.build,
-                         platform := s.platform, suite := s.suite, cpu := s.cpu, csd := some s.csd } }
+      | some s => .ok (reportSysInfo s),
+    miscInfo := match m.miscInfo with
+      | none => .error .StreamNotFound
+      | some x => .ok ⟨x.ver, x.vals⟩,
+    handles := match m.handles with
+      | none => .error .StreamNotFound
+      | some x => .ok (x.handles.map (reportHandle x.v2)),
+    linuxMaps := match m.linuxMaps with
+      | none => .error .StreamNotFound
+      | some x => .ok x,
+    crashpad := match m.crashpad with
+      | none => .error .StreamNotFound
+      | some x => .ok (reportCrashpad x) }
 
 /-! ## memory lookup: `memory_at_address` + `get_memory_at_address::<u8>` -/
 
@@ -780,6 +1233,13 @@ def parseName (s : String) : Option (List Nat) :=
 def parseNats (sep : String) (s : String) : Option (List Nat) :=
   if s == "" then some [] else (s.splitOn sep).mapM Proto.optNat
 
+/-- numbers separated by `.`, where `z<n>` stands for `n` zeros -/
+def parseNatsZ (s : String) : Option (List Nat) :=
+  if s == "" then some [] else
+  ((s.splitOn ".").mapM fun (t : String) =>
+    if t.startsWith "z" then (Proto.optNat (t.drop 1).toString).map fun n => List.replicate n 0
+    else (Proto.optNat t).map fun v => [v]).map List.flatten
+
 def parseCv (s : String) : Option (Option MCv) :=
   if s == "-" then some none else
   match s.splitOn ":" with
@@ -865,6 +1325,119 @@ def parseSysInfo (s : String) : Option (Option MSysInfo) :=
     | _, _, _ => none
   | _ => none
 
+/-- `-` | `<ver>,<tail bytes>,<values>` -/
+def parseMiscInfo (s : String) : Option (Option MMiscInfo) :=
+  if s == "-" then some none else
+  match s.splitOn "," with
+  | [ver, tail, vals] =>
+    match Proto.optNat ver, parseBytes tail, parseNatsZ vals with
+    | some ver, some tail, some vals => some (some ⟨ver, vals, tail⟩)
+    | _, _, _ => none
+  | _ => none
+
+/-- optional name: `~` = none -/
+def parseOptName (s : String) : Option (Option (List Nat)) :=
+  if s == "~" then some none else (parseName s).map some
+
+/-- object infos: `` | `<ty>:<size>/<ty>:<size>…` -/
+def parseInfos (s : String) : Option (List MObjInfo) :=
+  if s == "" then some [] else
+  (s.splitOn "/").mapM fun (t : String) =>
+    match (t.splitOn ":").map Proto.optNat with
+    | [some ty, some size] => some ⟨ty, size⟩
+    | _ => none
+
+def parseHandle : List String → Option MHandle
+  | [h, tn, on, attr, ga, hc, pc, infos] =>
+    match Proto.optNat h, parseOptName tn, parseOptName on, Proto.optNat attr, Proto.optNat ga, Proto.optNat hc,
+          Proto.optNat pc, parseInfos infos with
+    | some h, some tn, some on, some attr, some ga, some hc, some pc, some infos => some ⟨h, tn, on, attr, ga, hc, pc, infos⟩
+    | _, _, _, _, _, _, _, _ => none
+  | _ => none
+
+/-- `-` | `<1|2>|<handle>;<handle>…` -/
+def parseHandleData (s : String) : Option (Option MHandleData) :=
+  if s == "-" then some none else
+  match s.splitOn "|" with
+  | [v, hs] =>
+    match Proto.optNat v, parseList parseHandle hs with
+    | some 1, some hs => some (some ⟨false, hs⟩)
+    | some 2, some hs => some (some ⟨true, hs⟩)
+    | _, _ => none
+  | _ => none
+
+/-- path := `a` anonymous | `h` heap | `s` stack | `d` vdso | `v` vvar | `y` vsyscall | `r` rollup |
+    `t<tid>` | `k<key>` | `o<hex>` other | `p<hex>` path -/
+def parseMapPath (s : String) : Option MapPath :=
+  if s == "a" then some .anonymous else if s == "h" then some .heap else if s == "s" then some .stack
+  else if s == "d" then some .vdso else if s == "v" then some .vvar else if s == "y" then some .vsyscall
+  else if s == "r" then some .rollup
+  else if s.startsWith "t" then (Proto.optNat (s.drop 1).toString).map .tstack
+  else if s.startsWith "k" then (Proto.optNat (s.drop 1).toString).map .vsys
+  else if s.startsWith "o" then (Proto.unhex (s.drop 1).toString).map .other
+  else if s.startsWith "p" then (Proto.unhex (s.drop 1).toString).map .path
+  else none
+
+def parseMapEntry : List String → Option MapEntry
+  | [lo, hi, perms, off, maj, min, ino, path] =>
+    match [lo, hi, perms, off, maj, min, ino].mapM Proto.optNat, parseMapPath path with
+    | some [lo, hi, perms, off, maj, min, ino], some path => some ⟨lo, hi, perms, off, maj, min, ino, path⟩
+    | _, _ => none
+  | _ => none
+
+/-- `-` | `[<entry>;<entry>…]` -/
+def parseLinuxMaps (s : String) : Option (Option (List MapEntry)) :=
+  if s == "-" then some none
+  else if s.startsWith "[" && s.endsWith "]" then (parseList parseMapEntry ((s.drop 1).dropEnd 1).toString).map some
+  else none
+
+/-- a byte string token: `x<hex>` -/
+def parseX (s : String) : Option (List UInt8) :=
+  if s.startsWith "x" then Proto.unhex (s.drop 1).toString else none
+
+def parseSep {α : Type} (sep : String) (f : String → Option α) (s : String) : Option (List α) :=
+  if s == "" then some [] else (s.splitOn sep).mapM f
+
+/-- `x<key>:x<value>` -/
+def parseKv (s : String) : Option (List UInt8 × List UInt8) :=
+  match s.splitOn ":" with
+  | [k, v] => match parseX k, parseX v with
+    | some k, some v => some (k, v)
+    | _, _ => none
+  | _ => none
+
+/-- `i:x<name>` | `s:x<name>:x<value>` | `o:x<name>:<ty>:<value>` -/
+def parseAnn (s : String) : Option MAnnotation :=
+  match s.splitOn ":" with
+  | ["i", n] => (parseX n).map .invalid
+  | ["s", n, v] => match parseX n, parseX v with
+    | some n, some v => some (.string n v)
+    | _, _ => none
+  | ["o", n, ty, v] => match parseX n, Proto.optNat ty, Proto.optNat v with
+    | some n, some ty, some v => some (.other n ty v)
+    | _, _, _ => none
+  | _ => none
+
+/-- `<index>!<version>!<list: x../x..>!<dict: kv/kv>!<objects: ann/ann>` -/
+def parseModuleCrashpad (s : String) : Option MModuleCrashpad :=
+  match s.splitOn "!" with
+  | [idx, ver, l, d, a] =>
+    match Proto.optNat idx, Proto.optNat ver, parseSep "/" parseX l, parseSep "/" parseKv d, parseSep "/" parseAnn a with
+    | some idx, some ver, some l, some d, some a => some ⟨idx, ver, l, d, a⟩
+    | _, _, _, _, _ => none
+  | _ => none
+
+/-- `-` | `<version>,<report id: 11 numbers>,<client id>,<dict>,<module>+<module>…` -/
+def parseCrashpad (s : String) : Option (Option MCrashpad) :=
+  if s == "-" then some none else
+  match s.splitOn "," with
+  | [ver, rid, cid, d, ms] =>
+    match Proto.optNat ver, parseNats "." rid, parseNats "." cid, parseSep "/" parseKv d, parseSep "+" parseModuleCrashpad ms with
+    | some ver, some rid, some cid, some d, some ms =>
+      if rid.length = 11 ∧ cid.length = 11 then some (some ⟨ver, rid, cid, d, ms⟩) else none
+    | _, _, _, _, _ => none
+  | _ => none
+
 def parseExtra : List String → Option (Nat × List UInt8)
   | [ty, bytes] =>
     match Proto.optNat ty, parseBytes bytes with
@@ -875,8 +1448,8 @@ def parseExtra : List String → Option (Nat × List UInt8)
 def field (key : String) (s : String) : Option String :=
   if s.startsWith key then some (s.drop key.length).toString else none
 
-/-- `fl=.. pad=0|1 T=.. M=.. R=.. I=.. N=.. U=.. X=.. S=.. D=..` -/
-def parseModel : List String → Option DumpModel
+/-- the eleven original fields -/
+def parseModel11 : List String → Option DumpModel
   | [fl, pad, t, m, r, i, n, u, x, s, d] =>
     match field "fl=" fl >>= Proto.optNat, field "pad=" pad >>= Proto.optNat,
           field "T=" t >>= parseList parseThread, field "M=" m >>= parseList parseModule,
@@ -884,9 +1457,41 @@ def parseModel : List String → Option DumpModel
           field "N=" n >>= parseList parseThreadName, field "U=" u >>= parseList parseUnloaded,
           field "X=" x >>= parseException, field "S=" s >>= parseSysInfo, field "D=" d >>= parseList parseExtra with
     | some fl, some pad, some t, some m, some r, some i, some n, some u, some x, some s, some d =>
-      if pad ≤ 1 then some ⟨fl, pad == 1, t, m, r, i, n, u, x, s, d⟩ else none
+      if pad ≤ 1 then
+        some { flags := fl, pad := pad == 1, threads := t, modules := m, memory := r, memInfo := i, threadNames := n,
+               unloaded := u, exception := x, sysInfo := s, extra := d }
+      else none
     | _, _, _, _, _, _, _, _, _, _, _ => none
   | _ => none
+
+/-- the optional trailing fields, each at most once, in this order: `Y=` misc info, `H=` handle data -/
+def parseOptional (m : DumpModel) : List String → Option DumpModel
+  | [] => some m
+  | t :: rest =>
+    if t.startsWith "Y=" then
+      match field "Y=" t >>= parseMiscInfo with
+      | some y => parseOptional { m with miscInfo := y } rest
+      | none => none
+    else if t.startsWith "H=" then
+      match field "H=" t >>= parseHandleData with
+      | some h => parseOptional { m with handles := h } rest
+      | none => none
+    else if t.startsWith "L=" then
+      match field "L=" t >>= parseLinuxMaps with
+      | some l => parseOptional { m with linuxMaps := l } rest
+      | none => none
+    else if t.startsWith "C=" then
+      match field "C=" t >>= parseCrashpad with
+      | some c => parseOptional { m with crashpad := c } rest
+      | none => none
+    else none
+
+/-- `fl=.. pad=0|1 T=.. M=.. R=.. I=.. N=.. U=.. X=.. S=.. D=..` optionally followed by `Y=..`
+    (misc info), `H=..` (handle data); a line without an optional field has no such stream -/
+def parseModel (toks : List String) : Option DumpModel :=
+  match parseModel11 (toks.take 11) with
+  | none => none
+  | some m => parseOptional m (toks.drop 11)
 
 def fnv64 (bs : List UInt8) : UInt64 :=
   bs.foldl (fun h b => (h ^^^ b.toUInt64) * 0x100000001b3) 0xcbf29ce484222325
@@ -941,6 +1546,72 @@ def showSysInfo : Except Err RSysInfo → String
     s!"{s.arch},{s.level},{s.revision},{s.nproc},{s.productType},{s.major},{s.minor},{s.build},{s.platform},{s.suite}," ++
     s!"{showBlob s.cpu}," ++ (match s.csd with | none => "~" | some n => showName n)
 
+def showNatList (vs : List Nat) : String :=
+  match vs with
+  | [v] => toString v
+  | _ => s!"{vs.length}:{Proto.natToHex (fnv64 (vs.flatMap (leBytes 8))).toNat}"
+
+/-- `<ver>;<accessor>=<value|~>;…` for every accessor of `RawMiscInfo`, in the table's order -/
+def showMiscInfo : Except Err MiscInfo → String
+  | .error e => "err " ++ e.name
+  | .ok mi => Proto.joinWith ";" (toString mi.ver :: MISC_ACCESSORS.map fun (name, since, flag) =>
+      name ++ "=" ++ (match miscAccessWith mi name since flag with
+        | none => "~"
+        | some vs => showNatList vs))
+
+def showOptName : Option (List Nat) → String
+  | none => "~"
+  | some n => showName n
+
+def showHandle (h : RHandle) : String :=
+  s!"{if h.v2 then 2 else 1},{h.handle},{showOptName h.typeName},{showOptName h.objectName},{h.attributes}," ++
+  s!"{h.grantedAccess},{h.handleCount},{h.pointerCount}," ++
+  Proto.joinWith "/" (h.infos.map fun (t, sz) => s!"{t}:{sz}")
+
+def showMapPath : MapPath → String
+  | .path p => "p" ++ Proto.hex p
+  | .heap => "h" | .stack => "s" | .vdso => "d" | .vvar => "v" | .vsyscall => "y" | .rollup => "r" | .anonymous => "a"
+  | .tstack tid => s!"t{tid}"
+  | .vsys key => s!"k{key}"
+  | .other x => "o" ++ Proto.hex x
+
+def showMapEntry (x : MapEntry) : String :=
+  s!"{x.lo},{x.hi},{x.perms},{x.offset},{x.devMajor},{x.devMinor},{x.inode},{showMapPath x.path}"
+
+/-- `MinidumpLinuxMaps::from_regions` [2591]: `(memory_range(), index)` through `into_rangemap_safe`
+    (C08's model; `memory_range()` = `mkRangeMap lo hi`, the final address taken as inclusive) -/
+def mapsTable (xs : List MapEntry) : List RangeMap.Entry :=
+  RangeMap.safeVec (xs.zipIdx.map fun (x, i) => (RangeMap.mkRangeMap x.lo x.hi, i))
+
+/-- `memory_info_at_address` around both ends of every entry: `<addr>:<index|~>` -/
+def showMapProbes (xs : List MapEntry) : String :=
+  let addrs := xs.flatMap fun x =>
+    (if x.lo > 0 then [x.lo - 1] else []) ++ [x.lo, x.hi] ++ (if x.hi < U64MAX then [x.hi + 1] else [])
+  Proto.joinWith "," (addrs.map fun a =>
+    match RangeMap.get (mapsTable xs) a with
+    | none => s!"{a}:~"
+    | some i => s!"{a}:{i}")
+
+def showLinuxMaps : Except Err (List MapEntry) → String
+  | .error e => "err " ++ e.name
+  | .ok xs => "[" ++ Proto.joinWith ";" (xs.map showMapEntry) ++ "]|" ++ showMapProbes xs
+
+def showX (b : List UInt8) : String := "x" ++ Proto.hex b
+def showKvs (d : List (List UInt8 × List UInt8)) : String :=
+  Proto.joinWith "/" (d.map fun (k, v) => showX k ++ ":" ++ showX v)
+def showAnnValue : RAnnValue → String
+  | .invalid => "i"
+  | .string s => "s:" ++ showX s
+  | .userDefined ty v => s!"u:{ty}:{v}"
+  | .unsupported ty v => s!"n:{ty}:{v}"
+def showModuleCrashpad (x : RModuleCrashpad) : String :=
+  s!"{x.index}!{x.version}!" ++ Proto.joinWith "/" (x.listAnnotations.map showX) ++ "!" ++ showKvs x.simpleAnnotations ++ "!" ++
+  Proto.joinWith "/" (x.annotationObjects.map fun (k, v) => showX k ++ "=" ++ showAnnValue v)
+def showCrashpad : Except Err RCrashpad → String
+  | .error e => "err " ++ e.name
+  | .ok x => s!"{x.version},{showNats x.ids},{showKvs x.simpleAnnotations}," ++
+      Proto.joinWith "+" (x.modules.map showModuleCrashpad)
+
 /-- the probe addresses of a region list: around both ends of every region -/
 def probeAddrs (rs : List MRegion) : List Nat :=
   rs.flatMap fun r =>
@@ -969,7 +1640,11 @@ def showReported (r : Reported) : String :=
     "N=" ++ showList showThreadName r.threadNames,
     "U=" ++ showList showUnloaded r.unloaded,
     "X=" ++ showException r.exception,
-    "S=" ++ showSysInfo r.sysInfo]
+    "S=" ++ showSysInfo r.sysInfo,
+    "Y=" ++ showMiscInfo r.miscInfo,
+    "H=" ++ showList showHandle r.handles,
+    "L=" ++ showLinuxMaps r.linuxMaps,
+    "C=" ++ showCrashpad r.crashpad]
 
 def showEndian : Endian → String
   | .little => "le"
@@ -993,7 +1668,7 @@ def parseForm : String → Option MemForm
 
 /-- line-protocol entry point (engine `roundtrip`):
       roundtrip decode <hex(bytes)>                        -> <le|be> <report>  | err <Error> | PANIC <site>
-      roundtrip encode <le|be> <mem|mem64> <model: 11 fields> -> hex(bytes)
+      roundtrip encode <le|be> <mem|mem64> <model: 11 fields + optional ones> -> hex(bytes)
       roundtrip report <le|be> <mem|mem64> <model>          -> <le|be> <report of `report m e f`>
       roundtrip all <hex> <hex> <hex> <hex> <model>          -> the four decode answers, the four encodings
         (le/mem, be/mem, le/mem64, be/mem64) and the four `report`s, separated by ` ## ` -/
